@@ -145,6 +145,18 @@ pub struct ScrutBlk {
     pub body: Vec<String>,
     /// expected exit code and the position of the `[n]` line within the body
     pub exit: Option<(u8, u16)>,
+    /// the closing fence has this many more backticks than the opening one (CommonMark: a closing
+    /// fence is at least as long as the opening fence); 3 = same length plus a tailing blank
+    #[serde(default)]
+    pub close_extra: u8,
+}
+
+pub fn closing_fence(n: u8, close_extra: u8) -> String {
+    match close_extra {
+        0 => fence(n),
+        3 => format!("{} ", fence(n)),
+        k => fence(n + k),
+    }
 }
 
 #[derive(Clone, Debug, Serialize, Deserialize)]
@@ -152,11 +164,19 @@ pub enum Blk {
     Prose { lines: Vec<String> },
     Heading { level: u8, text: String },
     Scrut(ScrutBlk),
-    Foreign { fence: u8, info: String, body: Vec<String> },
+    Foreign {
+        fence: u8,
+        info: String,
+        body: Vec<String>,
+        #[serde(default)]
+        close_extra: u8,
+    },
     /// a scrut block without any line
     EmptyScrut { fence: u8 },
     /// a scrut block that has only comments
     CommentOnlyScrut { fence: u8, comments: Vec<String> },
+    /// a scrut block that has only an exit code line (no `$`): no test, no effect on others
+    ExitOnlyScrut { fence: u8, code: u8 },
     // ---- malformed constructs (extended documents)
     /// expectation lines but no `$`
     NoCommandScrut { fence: u8, body: Vec<String> },
@@ -270,6 +290,13 @@ fn push_scrut(lines: &mut Vec<String>, b: &ScrutBlk, cfg_suffix: &str, lang_suff
         body.insert(at, (true, format!("[{code}]")));
         exit = Some(code as i32);
     }
+    // the line directly after the command must not read as a continuation of the command
+    // (after an exit code line a `> x` line is an expectation again)
+    if let Some(first) = body.first_mut() {
+        if first.1.starts_with("> ") {
+            first.1 = "first line".into();
+        }
+    }
     for (is_exit, l) in body {
         if !is_exit {
             exps.push(l.clone());
@@ -350,7 +377,7 @@ pub fn render(doc: &Doc) -> Rendered {
                 let opened_at = lines.len();
                 let (cmd_line, exps, exit) = push_scrut(&mut lines, b, cfg_suffix, lang_suffix);
                 let closed_at = lines.len();
-                lines.push(fence(b.fence));
+                lines.push(closing_fence(b.fence, b.close_extra));
                 let title = match &prev {
                     Prev::Start => TitleExpect::Exactly(String::new()),
                     Prev::Title(t) => TitleExpect::Exactly(t.clone()),
@@ -368,9 +395,14 @@ pub fn render(doc: &Doc) -> Rendered {
                     opened_at,
                 });
             }
-            Blk::Foreign { fence: f, info, body } => {
+            Blk::Foreign { fence: f, info, body, close_extra } => {
                 lines.push(format!("{}{}", fence(*f), info));
                 lines.extend(body.iter().cloned());
+                lines.push(closing_fence(*f, *close_extra));
+            }
+            Blk::ExitOnlyScrut { fence: f, code } => {
+                lines.push(format!("{}scrut", fence(*f)));
+                lines.push(format!("[{code}]"));
                 lines.push(fence(*f));
             }
             Blk::EmptyScrut { fence: f } => {
@@ -537,15 +569,7 @@ pub const FOREIGN_BODY: &[&str] = &[
 ];
 
 fn body_strategy() -> BoxedStrategy<Vec<String>> {
-    vec(proptest::sample::select(BODY_LINES.to_vec()).prop_map(String::from), 0..6)
-        .prop_map(|mut b| {
-            // the first body line must not read as a command continuation
-            if b.first().map(|l| l.starts_with("> ")).unwrap_or(false) {
-                b[0] = "first line".into();
-            }
-            b
-        })
-        .boxed()
+    vec(proptest::sample::select(BODY_LINES.to_vec()).prop_map(String::from), 0..6).boxed()
 }
 
 fn inline_cfg() -> BoxedStrategy<InlineCfg> {
@@ -578,8 +602,9 @@ pub fn scrut_blk() -> BoxedStrategy<ScrutBlk> {
         vec(proptest::sample::select(CONT.to_vec()).prop_map(String::from), 0..3),
         body_strategy(),
         proptest::option::weighted(0.3, (prop_oneof![Just(0u8), Just(1u8), any::<u8>()], any::<u16>())),
+        prop_oneof![6 => Just(0u8), 1 => Just(1u8), 1 => Just(2u8), 1 => Just(3u8)],
     )
-        .prop_map(|(fence, pad, cfg, comments, c0, cont, body, exit)| {
+        .prop_map(|(fence, pad, cfg, comments, c0, cont, body, exit, close_extra)| {
             let mut cmd = vec![c0.to_string()];
             cmd.extend(cont);
             ScrutBlk {
@@ -590,6 +615,7 @@ pub fn scrut_blk() -> BoxedStrategy<ScrutBlk> {
                 cmd,
                 body,
                 exit,
+                close_extra,
             }
         })
         .boxed()
@@ -609,17 +635,18 @@ fn core_blk() -> BoxedStrategy<Blk> {
         2 => (1u8..4, proptest::sample::select(vec!["A heading", "Ünï heading", "heading with `code`", "1. numbered heading", "Trailing #"]))
             .prop_map(|(level, text)| Blk::Heading { level, text: text.to_string() }),
         2 => (3u8..6, proptest::sample::select(FOREIGN_INFO.to_vec()), vec(proptest::sample::select(FOREIGN_BODY.to_vec()).prop_map(String::from), 0..4))
-            .prop_map(|(fence, info, body)| Blk::Foreign { fence, info: info.to_string(), body }),
+            .prop_map(|(fence, info, body)| Blk::Foreign { fence, info: info.to_string(), body, close_extra: (fence % 3) * (info.len() as u8 % 2) }),
         // documented nesting: a complete scrut block inside a foreign block with a longer fence
         1 => (scrut_blk(), proptest::sample::select(vec!["markdown", "md", "text"])).prop_map(|(b, info)| {
             let mut inner = vec![];
             push_scrut(&mut inner, &b, "", "");
-            inner.push(fence(b.fence));
-            Blk::Foreign { fence: b.fence + 1, info: info.to_string(), body: inner }
+            inner.push(closing_fence(b.fence, b.close_extra));
+            Blk::Foreign { fence: b.fence + 1 + if b.close_extra == 3 { 0 } else { b.close_extra }, info: info.to_string(), body: inner, close_extra: 0 }
         }),
         1 => scrut_blk().prop_map(Blk::ScrutCfgTrailingBlank),
         1 => scrut_blk().prop_map(Blk::ScrutLangTrailingBlank),
         1 => (3u8..5).prop_map(|fence| Blk::EmptyScrut { fence }),
+        1 => (3u8..5, prop_oneof![Just(1u8), Just(0u8), any::<u8>()]).prop_map(|(fence, code)| Blk::ExitOnlyScrut { fence, code }),
         1 => (3u8..5, vec(proptest::sample::select(COMMENTS.to_vec()).prop_map(String::from), 1..3)).prop_map(|(fence, comments)| Blk::CommentOnlyScrut { fence, comments }),
     ]
     .boxed()
@@ -633,8 +660,8 @@ fn malformed_blk() -> BoxedStrategy<Blk> {
         1 => scrut_blk().prop_map(|b| {
             let mut inner = vec![];
             push_scrut(&mut inner, &b, "", "");
-            inner.push(fence(b.fence));
-            Blk::NoLanguage { fence: b.fence + 1, body: inner }
+            inner.push(closing_fence(b.fence, b.close_extra));
+            Blk::NoLanguage { fence: b.fence + 1 + if b.close_extra == 3 { 0 } else { b.close_extra }, body: inner }
         }),
     ]
     .boxed()
